@@ -26,7 +26,14 @@ def get_func_in_module(module: str, qualname: str) -> Callable[..., Any]:
         InvalidTypeError if we the name isn't a function
     """
     func = get_name_in_module(module, qualname)
-    func = inspect.unwrap(func)
+    try:
+        func = inspect.unwrap(func)
+    except ValueError:
+        # an object whose __wrapped__ chain never ends (a proxy that answers
+        # every attribute): certainly not the function that was traced
+        raise InvalidTypeError(
+            f"{module}.{qualname} is of type '{type(func)}', not function."
+        )
     if isinstance(func, types.MethodType):
         func = func.__func__
     elif isinstance(func, property):
